@@ -32,6 +32,7 @@ REACH_MIN = {"responses_compared": {"quick": 1500, "thorough": 21093},
              "dials_checked": {"quick": 400, "thorough": 5625},
              "readdressed_dials": {"quick": 10, "thorough": 140},
              "invalidations_checked": {"quick": 150, "thorough": 2109},
+             "group_invalidations_checked": {"quick": 25, "thorough": 600},
              "recover_sends_after_faults": {"quick": 150, "thorough": 2109},
              "recover_faults": {"quick": 100, "thorough": 1406}}
 
@@ -47,6 +48,8 @@ def cases(tier, seed):
         out.append(dict(kind="invalidate", seed=seed * 1000003 + 830000 + i, idx=i))
     for i in range(n[2]):
         out.append(dict(kind="recover", seed=seed * 1000003 + 860000 + i))
+    for i in range({"quick": 60, "thorough": 1500}[tier]):
+        out.append(dict(kind="invalidate_group", seed=seed * 1000003 + 890000 + i, idx=i))
     return out
 
 
@@ -577,6 +580,92 @@ def run_invalidate(spec, res):
                           wire=[(e["api"], e["broker"], list(e["topics"]), e["replied"]) for k, e in mine][:12])
 
 
+def run_invalidate_group(spec, res):
+    """The group's coordinator is cached routing too: after a failed send to it, the next request for the group is
+    preceded by a coordinator lookup and goes where that lookup says."""
+    from afkak.common import OffsetCommitRequest, OffsetFetchRequest
+    rng = random.Random(spec["seed"])
+    i = spec["idx"]
+    fault = ("silent", "stopped", "drop-before", "silent")[i % 4]
+    api1 = ("commit", "offset_fetch")[(i // 4) % 2]
+    api2 = ("commit", "offset_fetch")[(i // 8) % 2]
+    lat = 0.02 if fault.startswith("drop") else rng.choice((0.0, 0.002, 0.02))
+    w = World(spec["seed"], brokers=(1, 2, 3), latency=lat)
+    cl = w.cluster
+    cl.add_topic("ig", {0: 1, 1: 2})
+    group = "gi%d" % (i % 5)
+    coord = cl.coordinator_for(group)
+
+    def call(api):
+        if api == "commit":
+            return client.send_offset_commit_request(group, [OffsetCommitRequest("ig", 0, rng.randint(1, 50), -1, None)])
+        return client.send_offset_fetch_request(group, [OffsetFetchRequest("ig", 0)])
+    wire = {"commit": "OffsetCommit", "offset_fetch": "OffsetFetch"}
+    with Traps():
+        client = w.client(timeout=1000)
+        eat(client.load_metadata_for_topics("ig"))
+        w.run(until=w.clock.seconds() + 1.0)
+        out0 = []
+        call("commit").addBoth(out0.append)  # a first, healthy exchange: the coordinator is known and cached
+        w.run(until=w.clock.seconds() + 2.0, stop=lambda: bool(out0))
+        if not out0 or hasattr(out0[0], "check"):
+            res.inconclusive.append("the healthy first exchange with the coordinator failed")
+            return
+        if fault == "silent":
+            cl.faults.add(dict(api=wire[api1], broker=coord, nth=[0], action=dict(kind="silent", apply=False)))
+        elif fault == "drop-before":
+            cl.faults.add(dict(api=wire[api1], broker=coord, until=w.clock.seconds() + 1.05,
+                               action=dict(kind="drop", apply=False)))
+        else:
+            cl.stop_broker(coord)
+        h0 = len(cl.history)
+        out1 = []
+        call(api1).addBoth(out1.append)
+        w.run(until=w.clock.seconds() + 4.0, stop=lambda: bool(out1))
+        if not out1:
+            res.inconclusive.append("first call did not complete")
+            return
+        h1 = len(cl.history)
+        if not hasattr(out1[0], "check"):
+            res.hit("group_fault_overcome_by_the_broker_client")
+            res.n_sub += 1
+            return
+        res.hit("group_invalidations_checked")
+        moved = rng.random() < 0.6
+        if moved:
+            cl.move_coordinator(group, rng.choice([n for n in (1, 2, 3) if n != coord]))
+        if fault == "stopped" and (not moved or rng.random() < 0.5):
+            cl.start_broker(coord)
+        corr_floor = client._next_id()
+        out2 = []
+        w.run(until=w.clock.seconds() + rng.choice((0.0, 0.05)))
+        call(api2).addBoth(out2.append)
+        w.run(until=w.clock.seconds() + 6.0, stop=lambda: bool(out2))
+        mine = [(k, e) for k, e in enumerate(cl.history) if k >= h1 and "req" in e and e["corr"] > corr_floor]
+        second = [k for k, e in mine if e["api"] == wire[api2] and e["req"].get("group") == group]
+        end = second[0] if second else len(cl.history)
+        looks = [k for k, e in mine if k < end and e["api"] == "FindCoordinator" and e["req"].get("group") == group
+                 and e["replied"] == "sent"]
+        if second and not looks:
+            res.violate("invalidate/next-group-request-without-coordinator-lookup/%s" % fault, "after a failed send "
+                        "(%s) to the coordinator of %r the next %s request for the group reached the wire without a "
+                        "coordinator lookup in between" % (fault, group, api2), first_outcome=repr(out1[0])[:160],
+                        coordinator_moved=moved, wire=[(e["api"], e["broker"]) for k, e in mine][:10])
+        res.ob("coordinator_re_resolved_before_next_request")
+        if second and looks:
+            ans = cl.history[looks[-1]].get("result") or {}
+            want = ans.get("node") if isinstance(ans, dict) else None
+            got = cl.history[second[0]]["broker"]
+            if want is not None and ans.get("error", 0) == 0 and want != got:
+                res.violate("invalidate/next-group-request-to-stale-coordinator", "the lookup names node %r, the request "
+                            "went to node %r" % (want, got))
+            res.ob("next_group_request_follows_the_lookup")
+        eat(client.close())
+        w.run(until=w.clock.seconds() + 1.0)
+    res.n_sub += 1
+    res.sigs.add(sig("invalidate_group", fault, api1, api2, moved))
+
+
 # ------------------------------------------------------------------------------------------------------
 # (c) bounded recovery with a producer and consumers
 # ------------------------------------------------------------------------------------------------------
@@ -776,6 +865,8 @@ def run(spec):
             run_mirror(spec, res)
         elif spec["kind"] == "invalidate":
             run_invalidate(spec, res)
+        elif spec["kind"] == "invalidate_group":
+            run_invalidate_group(spec, res)
         else:
             run_recover(spec, res)
     except Exception:
